@@ -1,16 +1,48 @@
 ----------------------------- MODULE Trace_Ser -----------------------------
-(* C15, configuration export of the shipped templates over the parameter grid: every configuration    *)
-(* can be serialised (to_ron), a clone serialises identically, and two configurations serialise        *)
-(* identically iff they are the same template with the same parameter values (key = interned           *)
-(* (template, parameters, n); ser = interned serialisation).                                            *)
+(* C15, configuration export: every configuration can be serialised (to_ron), a clone serialises        *)
+(* identically, and two configurations serialise identically iff they are the same configuration:      *)
+(*  - shipped templates over the parameter grid (and every parameter of every template perturbed on    *)
+(*    its own), conditions over every parameter in every place a condition can stand, identifier- and  *)
+(*    logic-only differences: key = interned (template, parameters, n), given by the harness;          *)
+(*  - configurations assembled through every entry point of the builder API from a BUILDER TERM        *)
+(*    (t = "struct"): the key is the structure Str(term) that the documented meaning of the entry      *)
+(*    points gives the term -- `build` / `build_component` / `Block::new` make a block of the items    *)
+(*    (of none, one or several alike), `while_` / `if_` / `if_else_` / `scope_` and the constructors   *)
+(*    taking a list make the body a block, the constructors taking ONE component make that component   *)
+(*    the body, `do_many_` splices, `do_if_some_(None)` adds nothing, `Configuration::new` / `from` /  *)
+(*    `into_inner` wrap nothing, `into_builder` starts a builder holding the old root.                 *)
+(* ser = interned text of the RON export.                                                              *)
 EXTENDS Naturals, Sequences, TLC, Json, IOUtils
 Rec == ndJsonDeserialize(IOEnv.TRACE)
-VARIABLE l
-SerStep == /\ Rec[l].ron_ok = 1
+VARIABLES l, seen
+
+RECURSIVE Str(_), Item(_), Items(_, _)
+Items(a, i) == IF i > Len(a) THEN "" ELSE Item(a[i]) \o Items(a, i + 1)
+Item(t) == CASE t.op = "many" -> Items(t.a, 1)                 \* spliced into the enclosing list
+              [] t.op = "none" -> ""
+              [] OTHER -> Str(t) \o ","
+Str(t) == CASE t.op = "leaf" -> t.v
+            [] t.op \in {"build", "bc", "blocknew"} -> "[" \o Items(t.a, 1) \o "]"
+            [] t.op \in {"while", "loopvec"} -> "W[" \o Items(t.a, 1) \o "]"
+            [] t.op = "loopbox" -> "W" \o Str(t.a[1])
+            [] t.op \in {"if", "branchvec"} -> "I[" \o Items(t.a, 1) \o "]"
+            [] t.op = "branchbox" -> "I" \o Str(t.a[1])
+            [] t.op \in {"ifelse", "branchelsevec"} -> "E[" \o Items(t.a, 1) \o "]|[" \o Items(t.e, 1) \o "]"
+            [] t.op = "branchelsebox" -> "E" \o Str(t.a[1]) \o "|" \o Str(t.e[1])
+            [] t.op \in {"scope", "scopevec"} -> "S[" \o Items(t.a, 1) \o "]"
+            [] t.op = "scopebox" -> "S" \o Str(t.a[1])
+            [] t.op \in {"some", "confnew", "from", "reinner"} -> Str(t.a[1])
+            [] t.op = "rebuild" -> "[" \o Str(t.a[1]) \o ",]"
+
+KeyOf(r) == IF r.t = "struct" THEN "s" \o Str(r.term) ELSE "k" \o ToString(r.key)
+
+SerStep == LET k == KeyOf(Rec[l]) IN
+           /\ Rec[l].ron_ok = 1
            /\ Rec[l].clone_same = 1
-           /\ \A j \in 1..(l - 1) : (Rec[j].key = Rec[l].key) <=> (Rec[j].ser = Rec[l].ser)
-TraceInit == l = 1
+           /\ \A j \in 1..Len(seen) : (seen[j].k = k) <=> (seen[j].ser = Rec[l].ser)
+           /\ seen' = Append(seen, [k |-> k, ser |-> Rec[l].ser])
+TraceInit == l = 1 /\ seen = <<>>
 TraceNext == l <= Len(Rec) /\ SerStep /\ l' = l + 1
-TraceSpec == TraceInit /\ [][TraceNext]_l
+TraceSpec == TraceInit /\ [][TraceNext]_<<l, seen>>
 TraceDone == PrintT(<<"TRACE_RESULT", TLCGet("stats").diameter - 1, Len(Rec)>>)
 =============================================================================
